@@ -165,7 +165,7 @@ def run(tier, seed=0):
     nget = sb.check_get_steps(prog, res, "R10.3-get-does-not-disturb")
     res.floor("Get/Verify steps", nget, 25)
     nsib = sb.check_sibling_steps(prog, res, "R10.4-sibling-steps-buffer-identically")
-    res.floor("sibling Step functions", nsib, 10)
+    res.floor("sibling Step functions", nsib, 23)
     res.coverage["pointer_fields"] = sorted("%s.%s" % x for x in ptr_fields)
     res.coverage["pointer_stores_checked"] = nstores
     res.coverage["explanation"] = (
